@@ -15,7 +15,8 @@ CHECKS = {
             'following the links the engine printed. Exhaustive inside the grid, sampled beyond. The previous / next '
             'attribute forms are compared with the plain rendering; 20 long-lived compiled variants are re-rendered '
             'with text- and callable-valued parameters, prefix spellings, sparse / edge / nested body layouts, four '
-            'sequence forms and five item kinds.',
+            'sequence forms and five item kinds. A batch variable that renders as anything but a number (e.g. an entity '
+            'reference left as literal text) is a violation.',
             'Trusted: the window model in checks/c11.py (from the DT_In docstring and the statement); '
             'CPython; parameters <= 0 mean "not given".',
             'DESIGN.md section 4, C11'),
@@ -27,7 +28,8 @@ CHECKS = {
             'occurrence of every site plus every 16th step), 2-preemption schedules over de-duplicated sites, '
             'random 3-thread schedules; pre-cooked, uncooked (compile race), already-rendered and restored variants; '
             'file-based templates with deep compile-race schedules (3 threads x 2 preemptions, 2 x 3, 2 x 4) at the '
-            'accesses of the shared object; per-thread functions; same-place schedules; all orders of 3 threads. Each '
+            'accesses of the shared object; per-thread functions; same-place schedules; all orders of 3 threads. Each shard '
+            'is confined to one CPU (cost only: one thread runs at a time). Each '
             'thread must get exactly what it gets alone.',
             'Trusted: vlib/sched.py; statement-line granularity (races inside one line or inside C / '
             'third-party code are invisible); CPython 3.12 GIL semantics.',
